@@ -383,13 +383,22 @@ def product_input_order(ctx: Ctx, fq: str = "cirkit.symbolic.functional.multiply
                 # where do the *first components* of the pairs come from?  `[(l1_inputs[i], ..) for i in range(len(l1_inputs))]`
                 # (declared order, whatever is used to find the partner) is fine; a zip over sorted lists is not
                 declared = False
+                sorted_iter = False
+                ld = LocalDefs(f.node)
                 for d in _pair_lists(f.node):
                     if isinstance(d, ast.ListComp) and len(d.generators) == 1 and isinstance(d.elt, ast.Tuple) and d.elt.elts:
                         it_c = fc.text(d.generators[0].iter, n)
                         first_c = fc.text(d.elt.elts[0], n)
-                        if "sorted(" not in it_c and "sorted(" not in first_c.split("[ELEM", 1)[0] and "layer_inputs(" in first_c:
+                        it_all = " ".join(unparse(x) for x in ld.expand(d.generators[0].iter))
+                        if "sorted(" in it_c or "sorted(" in it_all:
+                            sorted_iter = True
+                        elif "sorted(" not in first_c.split("[ELEM", 1)[0] and "layer_inputs(" in first_c:
                             declared = True
-                if declared:
+                    elif isinstance(d, ast.Call) and "zip" in unparse(d.func) and "sorted(" in " ".join(unparse(x) for a in d.args for x in ld.expand(a)):
+                        sorted_iter = True
+                if sorted_iter:
+                    out.append(viol("R14g", fq, "product-input-order", "the pairs of inputs a product layer multiplies are enumerated in a *sorted* order (the generator ranges over sorted ranks / sorted inputs), and the product block is wired in that order: a Kronecker layer whose inputs are not declared by increasing scope is multiplied into a layer whose units are in another order", site))
+                elif declared:
                     out.append(ok("R14g", fq, "product-input-order", "the pairs are listed in the declared order of the first operand's inputs (sorting is only used to find the partner)", site))
                 elif "sorted(" in c and "layer_inputs(" in c:
                     out.append(viol("R14g", fq, "product-input-order", "the inputs of the product block are wired in the order of `sorted(<layer inputs>, key=scope)`, not in the declared order of the operand's inputs: a Kronecker layer whose inputs are not listed by increasing scope (or with evidence on a later input: the empty scope sorts first) is multiplied into a layer whose units are in another order, and the product evaluates to wrong values without an error", site))
